@@ -89,6 +89,34 @@ func Run4(ifi net.Interface, hs []handler.Handler4, dgram []byte, oobIf int, pee
 	return
 }
 
+// Run4Listen is Run4 on a listener built by the real listen4 from a listen address (real
+// socket on an ephemeral port; nothing is read from or written to it). It also returns the
+// interface the listener regards itself as bound to.
+func Run4Listen(listen *net.UDPAddr, hs []handler.Handler4, dgram []byte, oobIf int, peer *net.UDPAddr) (out Out, bound net.Interface, err error) {
+	v4mu.Lock()
+	defer v4mu.Unlock()
+	l, err := server.VerifListen4(listen, hs, &server.VerifIO{Sent: func(s server.VerifSent) { out.Sent = append(out.Sent, s) }, SendErr: sendErr()})
+	if err != nil {
+		return out, bound, err
+	}
+	defer l.Close()
+	bound = l.Bound()
+	server.VerifSetFrameSink(func(f server.VerifFrame) { out.Frames = append(out.Frames, f) })
+	defer server.VerifSetFrameSink(nil)
+	var oob *ipv4.ControlMessage
+	if oobIf != 0 {
+		oob = &ipv4.ControlMessage{IfIndex: oobIf}
+	}
+	defer func() {
+		if e := recover(); e != nil {
+			out.Panic = fmt.Sprintf("%v\n%s", e, trimStack(debug.Stack()))
+		}
+	}()
+	buf := append(make([]byte, 0, server.MaxDatagram), dgram...)
+	l.HandleMsg4(buf, oob, peer)
+	return
+}
+
 // Run6 handles one DHCPv6 datagram.
 func Run6(ifi net.Interface, hs []handler.Handler6, dgram []byte, oobIf int, peer *net.UDPAddr) (out Out) {
 	l := server.NewVerifListener6(ifi, hs, &server.VerifIO{Sent: func(s server.VerifSent) { out.Sent = append(out.Sent, s) }, SendErr: sendErr()})
